@@ -1,10 +1,12 @@
 #!/bin/bash
 # tools/mutant_matrix.sh [extra check ids...] — run every seeded change against its own property's quick check
 # (and the extra checks listed in seeded/<id>/also.txt), append results to seeded/RESULTS.tsv
+# usage: tools/mutant_matrix.sh [outfile [seeded ids...]]   (MUT_DIR selects the scratch slot)
 cd /verif
-out=seeded/RESULTS.tsv
+out=${1:-seeded/RESULTS.tsv}; shift
+if [ $# -gt 0 ]; then list=""; for i in "$@"; do list="$list seeded/$i/"; done; else list=$(ls -d seeded/*/); fi
 echo -e "seeded\tcheck\ttier\texit\tviolation_lines\tfirst_site" > $out
-for d in seeded/*/; do
+for d in $list; do
   id=$(basename $d); prop=$(python3 -c "import json;print(json.load(open('$d/meta.json'))['property'])")
   checks="$prop"; [ -f $d/also.txt ] && checks="$checks $(cat $d/also.txt)"
   for c in $checks; do
